@@ -15,8 +15,9 @@ Import ListNotations.
 Open Scope Z_scope.
 
 (* ------------------------------------------------------------------ *)
-(* The fuel |text| + 1 of [parse_dimacs_r] is always enough: the byte
-   machine never answers PFuel, whatever the text.                     *)
+(* The fuel |text| + 2 of [parse_dimacs_r] is always enough: the byte
+   machine never answers PFuel, whatever the text.  (|text| + 1 is enough for
+   every rendered text: C13_dimacs_fuel.)                              *)
 
 Lemma skip_spaces_length : forall s, (List.length (skip_spaces s) <= List.length s)%nat.
 Proof.
@@ -24,49 +25,65 @@ Proof.
   destruct (is_space c); simpl; lia.
 Qed.
 
+(* what is left after an integer: strictly shorter, or the blank that stands
+   for EOF *)
+Definition after_int (s rest : bytes) : Prop :=
+  (rest <> [] /\ (List.length rest < List.length s)%nat) \/ (rest = [SP] /\ s <> []).
+
 Lemma read_int_digits_shorter : forall s neg res v rest,
-  read_int_digits neg res s = RInt v rest ->
-  rest <> [] /\ (List.length rest < List.length s)%nat.
+  read_int_digits neg res s = RInt v rest -> after_int s rest.
 Proof.
   induction s as [|b r IH]; intros neg res v rest H; [discriminate|].
   cbn [read_int_digits] in H. destruct (digit_of b) as [d|]; [|discriminate].
-  destruct r as [|b' r']; [discriminate|].
-  destruct (is_space b').
-  - injection H as _ <-. split; [discriminate|simpl; lia].
-  - apply IH in H. destruct H as [H1 H2]. split; [exact H1|simpl in *; lia].
+  destruct r as [|b' r'].
+  - injection H as _ <-. right. split; [reflexivity|discriminate].
+  - destruct (is_space b').
+    + injection H as _ <-. left. split; [discriminate|simpl; lia].
+    + apply IH in H. destruct H as [[H1 H2]|[H1 H2]].
+      * left. split; [exact H1|simpl in *; lia].
+      * right. split; [exact H1|discriminate].
 Qed.
 
-Lemma read_int_shorter : forall s v rest,
-  read_int s = RInt v rest -> rest <> [] /\ (List.length rest < List.length s)%nat.
+Lemma read_int_shorter : forall s v rest, read_int s = RInt v rest -> after_int s rest.
 Proof.
   intros s v rest H. unfold read_int in H. pose proof (skip_spaces_length s) as Hl.
-  destruct (skip_spaces s) as [|b r]; [discriminate|].
+  destruct (skip_spaces s) as [|b r] eqn:E; [discriminate|].
+  assert (Hs : s <> []) by (intro; subst s; discriminate).
   destruct (Ascii.eqb b "-").
   - destruct r as [|b2 r2]; [discriminate|].
-    apply read_int_digits_shorter in H. destruct H as [H1 H2]. split; [exact H1|simpl in *; lia].
-  - apply read_int_digits_shorter in H. destruct H as [H1 H2]. split; [exact H1|simpl in *; lia].
+    apply read_int_digits_shorter in H. destruct H as [[H1 H2]|[H1 H2]].
+    + left. split; [exact H1|simpl in *; lia].
+    + right. split; [exact H1|exact Hs].
+  - apply read_int_digits_shorter in H. destruct H as [[H1 H2]|[H1 H2]].
+    + left. split; [exact H1|simpl in *; lia].
+    + right. split; [exact H1|exact Hs].
 Qed.
 
 Lemma read_clause_fuel : forall f nv s lits,
-  s <> [] -> (List.length s <= f)%nat ->
+  (List.length s < f)%nat ->
   read_clause f nv s lits <> CFuel /\
   forall oc rest, read_clause f nv s lits = CDone oc rest ->
-                  (List.length rest < List.length s)%nat.
+                  (List.length rest < List.length s)%nat \/ rest = [].
 Proof.
-  induction f as [|f IH]; intros nv s lits Hne Hf.
-  - destruct s; [congruence|simpl in Hf; lia].
-  - cbn [read_clause]. destruct (read_int s) as [v rest|  |] eqn:E.
-    + apply read_int_shorter in E. destruct E as [E1 E2].
-      destruct (v =? 0).
+  induction f as [|f IH]; intros nv s lits Hf; [lia|].
+  cbn [read_clause]. destruct (read_int s) as [v rest|  |] eqn:E.
+  - apply read_int_shorter in E. destruct E as [[E1 E2]|[E1 E2]].
+    + destruct (v =? 0).
       * split; [discriminate|]. intros oc rest' H. injection H as _ <-.
-        destruct rest; [congruence|]. simpl in *. lia.
+        left. destruct rest; [congruence|]. simpl in *. lia.
       * destruct ((nv <? v) || (nv <? - v)).
         -- split; [discriminate|]. intros oc rest' H. discriminate.
-        -- destruct (IH nv rest (lits ++ [v]) E1 ltac:(lia)) as [I1 I2]. split; [exact I1|].
-           intros oc rest' H. specialize (I2 oc rest' H). lia.
-    + split; [discriminate|]. intros oc rest' H. injection H as _ <-.
-      destruct s; [congruence|simpl; lia].
-    + split; [discriminate|]. intros oc rest' H. discriminate.
+        -- destruct (IH nv rest (lits ++ [v]) ltac:(lia)) as [I1 I2]. split; [exact I1|].
+           intros oc rest' H. destruct (I2 oc rest' H) as [I|I]; [left; lia|right; exact I].
+    + subst rest. destruct (v =? 0).
+      * split; [discriminate|]. intros oc rest' H. injection H as _ <-. right. reflexivity.
+      * destruct ((nv <? v) || (nv <? - v)).
+        -- split; [discriminate|]. intros oc rest' H. discriminate.
+        -- destruct f as [|f]; [destruct s; [congruence|simpl in Hf; lia]|].
+           cbn [read_clause]. change (read_int [SP]) with REof.
+           split; [discriminate|]. intros oc rest' H. injection H as _ <-. right. reflexivity.
+  - split; [discriminate|]. intros oc rest' H. injection H as _ <-. right. reflexivity.
+  - split; [discriminate|]. intros oc rest' H. discriminate.
 Qed.
 
 Lemma skip_comment_length : forall s, (List.length (skip_comment s) <= List.length s)%nat.
@@ -85,8 +102,23 @@ Proof.
     injection H as _ <-. specialize (IH l' rest' eq_refl). simpl. lia.
 Qed.
 
+Lemma parse_header_shorter : forall s nv nc rest,
+  parse_header s = POk (nv, nc, rest) -> (List.length rest <= List.length s)%nat.
+Proof.
+  intros s nv nc rest H. unfold parse_header in H.
+  destruct (read_line s) as [[l r]|] eqn:E.
+  - apply read_line_shorter in E.
+    destruct (fields l) as [|f0 [|f1 [|f2 fr]]]; try discriminate.
+    destruct (atoi f1); [|discriminate]. destruct (atoi f2); [|discriminate].
+    injection H as _ _ <-. lia.
+  - destruct s as [|c s']; [discriminate|].
+    destruct (fields (c :: s')) as [|f0 [|f1 [|f2 fr]]]; try discriminate.
+    destruct (atoi f1); [|discriminate]. destruct (atoi f2); [|discriminate].
+    injection H as _ _ <-. simpl. lia.
+Qed.
+
 Lemma cnf_top_fuel : forall f s nv cls,
-  (List.length s < f)%nat -> cnf_top f s nv cls <> PFuel.
+  (List.length s + 1 < f)%nat -> cnf_top f s nv cls <> PFuel.
 Proof.
   induction f as [|f IH]; intros s nv cls Hf; [lia|].
   cbn [cnf_top]. destruct s as [|b r]; [discriminate|].
@@ -95,41 +127,47 @@ Proof.
   destruct (Ascii.eqb b "c").
   { apply IH. pose proof (skip_comment_length r). lia. }
   destruct (Ascii.eqb b "p").
-  { unfold parse_header. destruct (read_line r) as [[l rest]|] eqn:E; [|discriminate].
-    apply read_line_shorter in E.
-    destruct (fields l) as [|f0 [|f1 [|f2 fr]]]; try discriminate.
-    destruct (atoi f1) as [n1|]; [|discriminate].
-    destruct (atoi f2) as [n2|]; [|discriminate].
-    destruct ((n1 <? 0) || (n2 <? 0)); [discriminate|]. apply IH. lia. }
-  destruct (read_clause_fuel f nv (b :: r) [] ltac:(discriminate) ltac:(simpl; lia)) as [H1 H2].
+  { destruct (parse_header r) as [[[n1 n2] rest]| | |] eqn:E.
+    - apply parse_header_shorter in E. cbv beta iota.
+      destruct ((n1 <? 0) || (n2 <? 0)); [discriminate|]. apply IH. lia.
+    - discriminate.
+    - discriminate.
+    - exfalso. unfold parse_header in E.
+      repeat match type of E with
+             | context [match ?X with _ => _ end] => destruct X
+             end; discriminate E. }
+  destruct (read_clause_fuel f nv (b :: r) [] ltac:(simpl; lia)) as [H1 H2].
   destruct (read_clause f nv (b :: r) []) as [oc rest| |] eqn:E; [|discriminate|congruence].
-  specialize (H2 oc rest eq_refl). cbn [List.length] in H2. apply IH. lia.
+  destruct (H2 oc rest eq_refl) as [H|H].
+  - cbn [List.length] in H. apply IH. lia.
+  - subst rest. apply IH. simpl. lia.
 Qed.
 
 Theorem parse_dimacs_never_out_of_fuel : forall s, parse_dimacs_r s <> PFuel.
 Proof. intros s. unfold parse_dimacs_r. apply cnf_top_fuel. lia. Qed.
 
 (* ------------------------------------------------------------------ *)
-(* FINDINGS about the readers (C13).                                   *)
+(* FINDINGS about the readers (C13).  D1, D2, O3 and W1 of the first round
+   have been fixed in /repo: they are now positive examples ([fixed_*]) and
+   the corresponding layouts are generated by the renderers.          *)
 
 Definition nl : string := String LF EmptyString.
 Local Open Scope string_scope.
 
-(* [D1] DIMACS, solver.ParseCNF: a file that ends right after the header line,
-   without a final end of line ("p cnf 0 0"), is rejected: parseHeader uses
-   ReadString('\n') and turns io.EOF into an error (parser.go:117-120). *)
-Example finding_dimacs_header_without_final_newline :
-  parse_dimacs "p cnf 0 0" = None /\ parse_dimacs ("p cnf 0 0" ++ nl) = Some (0, []).
+(* [D1] (fixed in /repo, 0eb765a) DIMACS: a file that ends right after the
+   header line, without a final end of line, is read. *)
+Example fixed_dimacs_header_without_final_newline :
+  parse_dimacs "p cnf 0 0" = Some (0, []) /\ parse_dimacs ("p cnf 0 0" ++ nl) = Some (0, []).
 Proof. split; vm_compute; reflexivity. Qed.
 
-(* [D2] DIMACS, solver.ParseCNF: when the last clause of the file is the empty
-   clause "0" and the file has no final end of line, the clause is silently
-   dropped (parser.go:162-166: at EOF a clause is kept only if it has
-   literals): an unsatisfiable problem is read as a satisfiable one. *)
-Example finding_dimacs_final_empty_clause_lost :
-  parse_dimacs ("p cnf 1 1" ++ nl ++ "0") = Some (1, []) /\
-  parse_dimacs ("p cnf 1 1" ++ nl ++ "0" ++ nl) = Some (1, [[]]).
-Proof. split; vm_compute; reflexivity. Qed.
+(* [D2] (fixed in /repo, 9ad7ae0) DIMACS: the last integer of a file without a
+   final end of line is no longer lost: neither a final empty clause "0" nor
+   the last literal of an unterminated clause. *)
+Example fixed_dimacs_final_empty_clause :
+  parse_dimacs ("p cnf 1 1" ++ nl ++ "0") = Some (1, [[]]) /\
+  parse_dimacs ("p cnf 1 1" ++ nl ++ "0" ++ nl) = Some (1, [[]]) /\
+  parse_dimacs ("p cnf 2 1" ++ nl ++ "1 2") = Some (2, [[1; 2]]).
+Proof. repeat split; vm_compute; reflexivity. Qed.
 
 (* [O1] OPB: the grammar of the format (<relational_operator> <zeroOrMoreSpace>
    <integer>) allows ">=2"; ParseOPB takes the operator to be the
@@ -145,11 +183,12 @@ Example finding_opb_no_blank_after_min :
   parse_opb ("min:1 x1 ;" ++ nl ++ "1 x1 >= 1 ;" ++ nl) = None.
 Proof. vm_compute; reflexivity. Qed.
 
-(* [O3] OPB: a blank after the final ';' of a line makes ParseOPB reject the
-   file (parser_pb.go:147, the last byte of the line must be ';'); so does a
-   line made of blanks only. *)
-Example finding_opb_blank_after_semicolon :
-  parse_opb ("1 x1 >= 1 ; " ++ nl) = None /\ parse_opb ("  " ++ nl ++ "1 x1 >= 1 ;" ++ nl) = None.
+(* [O3] (fixed in /repo, f60e102) OPB: blanks after the final ';', leading
+   blanks and lines made of blanks only are accepted (ParseOPB trims the lines). *)
+Example fixed_opb_blanks_around_lines :
+  parse_opb ("1 x1 >= 1 ; " ++ nl) = Some (1, [UC [(1, 1)] Ge 1], None) /\
+  parse_opb ("  " ++ nl ++ " * c" ++ nl ++ "  1 x1 >= 1 ;" ++ nl)
+  = Some (1, [UC [(1, 1)] Ge 1], None).
 Proof. split; vm_compute; reflexivity. Qed.
 
 (* [O4] OPB: the declared number of variables ("* #variable= 3") is ignored;
@@ -184,10 +223,9 @@ Proof. vm_compute; reflexivity. Qed.
 
 Local Open Scope string_scope.
 
-(* [W1] WCNF: a line made of blanks only makes ParseWCNF panic
-   (maxsat/parser.go:113, make([]int, len(fields)-1) with no field). *)
-Example finding_wcnf_blank_line_panics :
-  parse_wcnf_r (list_ascii_of_string ("p wcnf 1 1" ++ nl ++ " " ++ nl ++ "1 1 0" ++ nl)) = PPanic.
+(* [W1] (fixed in /repo, 653ea5e) WCNF: a line made of blanks only is skipped. *)
+Example fixed_wcnf_blank_line :
+  parse_wcnf ("p wcnf 1 1" ++ nl ++ " " ++ nl ++ "1 1 0" ++ nl) = Some (1, 0, [(1, [1])]).
 Proof. vm_compute; reflexivity. Qed.
 
 (* [W3] WCNF: the terminating 0 of a clause line is not checked; the last field
